@@ -166,6 +166,10 @@ func TestC14Steps(t *testing.T) {
 			tags = append(tags, "outcome:"+k+"/"+oc)
 		}
 		acts := clMerge(r, lives, 1+r.Intn(3))
+		if idx%3 == 0 {
+			acts = sprinkleTicks(r, acts, 3)
+			tags = append(tags, "ticks")
+		}
 		if idx%5 == 4 {
 			acts = append(acts, CAct{Op: "failread"})
 			tags = append(tags, "closed-by-failread")
